@@ -716,7 +716,16 @@ class CombineTarget(WireTarget):
         fref = repo.resolve(self.qualname)
         from pyvc.modules import nested_function
         node = nested_function(fref, 'combine_derivs') if fref else None
-        if node is None:
+        clo = None
+        if node is not None:
+            clo = Closure(node, Frame(fref.module), fref.module, 'gradient._chain_rule.<locals>.combine_derivs')
+        else:
+            # the same helper hoisted to module level (with or without a leading underscore)
+            for nm in ('gradient._combine_derivs', 'gradient.combine_derivs'):
+                clo = repo.resolve(nm)
+                if clo is not None:
+                    break
+        if clo is None:
             res['undecided'].append('contract target missing: combine_derivs')
             return res
         res['function_info'] = describe(fref)
@@ -724,7 +733,6 @@ class CombineTarget(WireTarget):
         tnnorm.install(R)
         Vv.reset_fresh()
         ip = Interp(repo, R, [], solver_timeout_ms=timeout_ms)
-        clo = Closure(node, Frame(fref.module), fref.module, 'gradient._chain_rule.<locals>.combine_derivs')
         try:
             got = ip.call(clo, [TArr.sym('D', 4), TArr.sym('pre', 2), TArr.sym('post', 2)], {})
             # adjoint legs 0,1 with the first-half factor, legs 2,3 with the second-half factor
